@@ -192,6 +192,17 @@ def install(R):
         return mk_bool(z3.Select(fr.st.ghost["FS_ok"].t, eng.as_V(p)))
     S["fs_complete"] = fs_complete
 
+    # names ending in '.tmp' are scratch names of write_to_disk; frame conditions are stated for all other names
+    istmp = z3.Function("istmp", V, Bool)
+
+    def same_at(g0, g1, q):
+        """the file system looks the same at path q: same visibility and, if visible, same content and completeness
+        (what an invisible name 'contains' is irrelevant)"""
+        e0, e1 = z3.Select(g0["FS_ex"].t, q), z3.Select(g1["FS_ex"].t, q)
+        return z3.And(e1 == e0, z3.Implies(e1, z3.And(z3.Select(g1["FS_ct"].t, q) == z3.Select(g0["FS_ct"].t, q),
+                                                       z3.Select(g1["FS_ok"].t, q) == z3.Select(g0["FS_ok"].t, q))))
+    R.symbols["same_at"] = same_at
+
     def fs_same_except(eng, fr, p):
         """FS == old(FS) everywhere except at path p"""
         if fr.old is None:
@@ -199,9 +210,7 @@ def install(R):
         q = z3.Const(fresh_name("q"), V)
         pv = eng.as_V(p)
         g0, g1 = fr.old.ghost, fr.st.ghost
-        body = z3.Implies(q != pv, z3.And(z3.Select(g1["FS_ex"].t, q) == z3.Select(g0["FS_ex"].t, q),
-                                          z3.Select(g1["FS_ct"].t, q) == z3.Select(g0["FS_ct"].t, q),
-                                          z3.Select(g1["FS_ok"].t, q) == z3.Select(g0["FS_ok"].t, q)))
+        body = z3.Implies(z3.And(q != pv, z3.Not(istmp(q))), same_at(g0, g1, q))
         return mk_bool(z3.ForAll([q], body))
     S["fs_same_except"] = fs_same_except
 
@@ -248,6 +257,10 @@ def install(R):
         x = z3.Const("x!", V)
         eng.axioms.append((f"fmt_inj[{lit}]", z3.ForAll([i], inv(f(T.VInt(i))) == i, patterns=[f(T.VInt(i))])))
         eng.axioms.append((f"fmt_str[{lit}]", z3.ForAll([x], T.is_VStr(f(x)), patterns=[f(x)])))
+        if not lit.split("{}")[-1].endswith(".tmp") and len(lit.split("{}")[-1]) >= 4:
+            a_ = z3.Const("a!", V)
+            # instance of the string lemma real_names_are_not_tmp: a path whose last component ends in this template's suffix
+            eng.axioms.append((f"not_tmp[{lit}]", z3.ForAll([a_, x], z3.Not(istmp(T.pjoin2(a_, f(x)))), patterns=[T.pjoin2(a_, f(x))])))
         pre = lit.split("{}")[0]
         for (_, other) in list(seen):
             opre = other.split("{}")[0]
@@ -282,11 +295,22 @@ def install(R):
         return _path(eng, fr, loc, "results", "RSLT_NM", i)
     S["ResultPath"] = result_path
 
+    def ensure_literal_not_tmp(eng, lit):
+        name = f"not_tmp_literal[{lit}]"
+        if lit.endswith(".tmp") or any(a[0] == name for a in eng.axioms):
+            return
+        a_ = z3.Const("a!", V)
+        eng.axioms.append((name, z3.ForAll([a_], z3.Not(istmp(T.pjoin2(a_, T.VStr(z3.StringVal(lit))))), patterns=[T.pjoin2(a_, T.VStr(z3.StringVal(lit)))])))
+
     def info_path(eng, fr, loc):
+        ensure_literal_not_tmp(eng, crop_const(eng, "INFO_NM"))
+        ensure_literal_not_tmp(eng, crop_const(eng, "FNCT_NM"))
         return SV("V", T.pjoin(eng.as_V(loc), T.VStr(z3.StringVal(crop_const(eng, "INFO_NM")))))
     S["InfoPath"] = info_path
 
     def fn_path(eng, fr, loc):
+        ensure_literal_not_tmp(eng, crop_const(eng, "INFO_NM"))
+        ensure_literal_not_tmp(eng, crop_const(eng, "FNCT_NM"))
         return SV("V", T.pjoin(eng.as_V(loc), T.VStr(z3.StringVal(crop_const(eng, "FNCT_NM")))))
     S["FnPath"] = fn_path
 
